@@ -8,16 +8,17 @@ from lib import common
 
 LEVEL = "proof"
 ASSUMPTIONS = [
-    "theorems (Properties/C19.v) are about the Gallina model Model/StrTerm.v: StringRecognizer, the \\b<text>\\b keyword "
-    "recognizer for texts the regex engine reads literally, the two un-escape passes, the front end from grammar AST to "
+    "theorems (Properties/C19.v) are about the Gallina model Model/StrTerm.v: StringRecognizer, the keyword recognizer "
+    "(escaped text, \\b next to a word character and a lookaround next to anything else: the repaired "
+    "_fix_keyword_terminals), the two un-escape passes, the front end from grammar AST to "
     "terminals/productions (inline strings named by their text, symbol table, override check, reference resolution, "
     "keyword rewrite) and the action sort key / implicit finish flags",
     "the model is tied to /repo by differential runs: un-escaped values, Grammar.from_string outcome (error kind or "
     "terminals+productions), recognizer match matrices at every input position, per-state action order and finish flags",
     "character set is ASCII: \\w, \\b and str.lower() are modelled for ASCII only; generated texts and inputs are ASCII",
     "KEYWORD regex semantics (does it match a text completely) and identifier-like regex terminals are an oracle computed "
-    "with Python's re; keyword texts containing regex metacharacters, whitespace or '#' are outside the recognizer model "
-    "(the impl interpolates them raw: known finding) and are judged by the property-level oracle only",
+    "with Python's re; that re.escape makes the regex engine read a keyword text literally is trusted, and checked by "
+    "the recognizer match matrices on texts with regex metacharacters, whitespace and '#'",
     "grammars without imports, without repetition/optional/group sugar; empty string terminals excluded",
 ]
 
@@ -31,7 +32,8 @@ ERR_NAMES = {1: "reserved name", 2: "multiple definitions of terminal", 3: "term
              7: "KEYWORD must be a regex"}
 
 REGEXES = [r"\w+", r"[a-z]+", r"\d+", r"[a-z.+]+", r"[A-Za-z_][A-Za-z_0-9]*"]
-KW_REGEXES = [r"\w+", r"[\w+]+", r"[\w-]+", r"[a-z]+", r"[\w ]+", r"[^\s]+", r"\w+\.\w+", r"[\w.]+", r"[\w#(]+"]
+KW_REGEXES = [r"\w+", r"[\w+]+", r"[\w-]+", r"[a-z]+", r"[\w ]+", r"[^\s]+", r"\w+\.\w+", r"[\w.]+", r"[\w#(]+",
+              r"[^\s\w]+", r"[\w+*.|()-]+", r"[^\s]+"]
 WS = "\n\r\t "
 WORD = set("abcdefghijklmnopqrstuvwxyzABCDEFGHIJKLMNOPQRSTUVWXYZ0123456789_")
 REGEX_PLAIN = WORD | set("!\"%&',-/:;<=>@`~")
@@ -189,9 +191,12 @@ def _dump_grammar(g):
             terms.append([t.name, 0, r.value, bool(t.keyword), bool(r.ignore_case)])
         elif type(r) is RegExRecognizer:
             if t.keyword:
-                rx = r._regex
-                val = rx[2:] if rx.startswith("\\b") else rx
-                val = val[:-2] if val.endswith("\\b") else val
+                # after the repair the keyword recognizer is named by the keyword text; an unnamed one
+                # (name == regex: the code before the repair) is \b<raw text>\b
+                val = r.name
+                if val == r._regex:
+                    val = val[2:] if val.startswith("\\b") else val
+                    val = val[:-2] if val.endswith("\\b") else val
                 terms.append([t.name, 1, val, True, bool(r.ignore_case)])
             else:
                 terms.append([t.name, 2, r._regex, False, bool(r.ignore_case)])
@@ -234,9 +239,9 @@ def _states(parser):
             if type(r) is StringRecognizer:
                 kind, ln, rl = 0, len(r.value), 0
             elif type(r) is RegExRecognizer:
-                kind, ln, rl = (1 if t.keyword else 2), 0, len(r._regex)
+                kind, ln, rl = (1 if t.keyword else 2), 0, len(r.name)
                 if t.keyword:
-                    ln = max(0, rl - 4)
+                    ln = rl
             else:
                 kind, ln, rl = 2, 0, 0
             fin = 0 if t.finish is None else (2 if t.finish else 1)
@@ -490,8 +495,6 @@ def with_meta(rng, terms):
 
 # ------------------------------------------------------------------ known findings
 KF_NAMING = "KF-C19-inline-named-by-text"
-KF_KWRAW = "KF-C19-keyword-raw-regex"
-KF_KWBOUND = "KF-C19-keyword-boundary-nonword-edge"
 KF_UNESC = "KF-C19-double-unescape"
 
 
@@ -501,17 +504,6 @@ def naming_defect_texts(values, rules, terms):
     # a reference to an undeclared name is silently bound to an inline string with that text
     names |= set(it[1] for _, alts in rules for alt in alts for it in alt if it[0] == "ref")
     return [v for v in values if "." in v or "\n" in v or "\t" in v or v in names]
-
-
-def kw_defect(kind, v):
-    """which listed keyword finding (if any) covers terminal text v"""
-    if kind != 1:
-        return None
-    if any(c not in REGEX_PLAIN for c in v):
-        return KF_KWRAW
-    if v and (not is_word(v[0]) or not is_word(v[-1])):
-        return KF_KWBOUND
-    return None
 
 
 def replay_known(ctx):
@@ -593,7 +585,7 @@ def run(ctx):
     st = {"unescape_bodies": 0, "unescape_differs_from_conventional": 0, "front_end_cases": 0,
           "front_end_outcomes": {}, "front_end_nice": 0, "twin_compared": 0, "token_grammars": 0,
           "matrices": 0, "matrix_positions": 0, "matrix_hits": 0, "keyword_terminals": 0, "string_terminals": 0,
-          "kw_plain_edgeword": 0, "parses": 0, "accepts": 0, "rejects": 0, "states_sorted": 0,
+          "kw_metachar_texts": 0, "kw_nonword_edge": 0, "parses": 0, "accepts": 0, "rejects": 0, "states_sorted": 0,
           "kf_instances": {}, "ignore_case_cases": 0}
     samples = []
     distinct = set()
@@ -790,7 +782,7 @@ def run(ctx):
         return terms, f["prods"]
 
     def is_kwc(err):
-        return isinstance(err, str) and "Regex compile error in /\\b" in err
+        return isinstance(err, str) and "Regex compile error" in err
 
     def check_front(tag, i, rules, terms, ic, o, r, kwl):
         st["front_end_cases"] += 1
@@ -805,10 +797,7 @@ def run(ctx):
         # (1) correspondence model <-> impl
         if "err" in fi and is_kwc(fi["err"]):
             outcome = "error:keyword regex does not compile"
-            if o[0] == 0 and any(kw_defect(1, v) == KF_KWRAW for v in kwl):
-                kf(KF_KWRAW, "grammar rejected: %s" % fi["err"][6:])
-            else:
-                ctx.violation("Grammar.from_string raises %r" % fi["err"], rep, key="front-kwc")
+            ctx.violation("grammar with keyword text(s) %r rejected: %s" % (kwl, fi["err"][6:]), rep, key="front-kwc")
         elif "err" in fi:
             outcome = "error:%s" % (ERR_NAMES.get(fi["err"], fi["err"]))
             if o[0] != 1 or o[1] != fi["err"]:
@@ -902,7 +891,6 @@ def run(ctx):
     t0 = time.time()
     outs2 = common.model_run(mc2)
     tm["model3"] = round(time.time() - t0, 1)
-    deviating = set()        # (tok index, form, input) where a listed keyword finding changes a recognizer
     for (i, form, name, kind, val, w), o in zip(meta2, outs2):
         rules, terms, ic, texts, idre, kw, inputs = toks[i]
         f = tokinfo[i][0 if form == "inline" else 1]
@@ -917,31 +905,26 @@ def run(ctx):
             st["string_terminals"] += 1
         else:
             st["keyword_terminals"] += 1
-        plain = bool(o[2])
-        if kind == 0 or plain:
+        if True:
             if row != o[0]:
                 ctx.violation("recognizer of %s terminal %r on %r: impl match lengths %r, model %r"
                               % ("string" if kind == 0 else "keyword", val, w, row, o[0]),
                               dict(rep, impl=row, model=o[0]), no_input=True, key="matrix-diff-%d" % kind)
         spec = [spec_match(kind, ic, val, w, p) for p in range(len(w))]
-        if kind == 1 and plain and spec != [len(val) if b else 0 for b in o[1]]:
+        if kind == 1 and spec != [len(val) if b else 0 for b in o[1]]:
             ctx.violation("harness self-check: kw_spec (model) and Python reference differ", rep, no_input=True,
                           key="selfcheck-kwspec")
         if row != spec:
-            d = kw_defect(kind, val)
-            if d is not None:
-                deviating.add((i, form, w))
-                kf(d, "keyword %r on input %r: match lengths %r, whole-word literal matching gives %r"
-                   % (val, w, row, spec))
-            else:
-                p = next(k for k in range(len(w)) if row[k] != spec[k])
-                ctx.violation("%s terminal %r %s at position %d of %r"
-                              % ("keyword" if kind == 1 else "string", val,
-                                 "matches (length %d) where it must not" % row[p] if row[p] else "does not match",
-                                 p, w), dict(rep, expected=spec, got=row), key="literal-%d" % kind)
+            p = next(k for k in range(len(w)) if row[k] != spec[k])
+            ctx.violation("%s terminal %r %s at position %d of %r"
+                          % ("keyword" if kind == 1 else "string", val,
+                             "matches (length %d) where it must not" % row[p] if row[p] else "does not match",
+                             p, w), dict(rep, expected=spec, got=row), key="literal-%d" % kind)
         else:
-            if kind == 1 and plain and val and is_word(val[0]) and is_word(val[-1]):
-                st["kw_plain_edgeword"] += 1
+            if kind == 1 and val and any(c not in REGEX_PLAIN for c in val):
+                st["kw_metachar_texts"] += 1
+            if kind == 1 and val and (not is_word(val[0]) or not is_word(val[-1])):
+                st["kw_nonword_edge"] += 1
             if any(row):
                 distinct.add(("m", val, kind, ic, w))
 
@@ -981,32 +964,21 @@ def run(ctx):
                     r2 = dict(rep, form=form, input=w, expected=exp, got=got)
                     if form == "twin":
                         r2["grammar"] = ast_text(rules, terms, twin_of(rules))
-                    if (i, form, w) in deviating:
-                        kf(KF_KWRAW if any(kw_defect(k, v) == KF_KWRAW for k, v in strings) else KF_KWBOUND,
-                           "token stream on %r differs from whole-word literal scanning" % w)
-                    else:
-                        ctx.violation("tokens chosen on input %r: %r, literal/whole-word reference scanner: %r"
-                                      % (w, got, exp), r2, key="tokens")
+                    ctx.violation("tokens chosen on input %r: %r, literal/whole-word reference scanner: %r"
+                                  % (w, got, exp), r2, key="tokens")
                 elif got[0] == "ok":
                     distinct.add(("p", rep["grammar"], form, w))
                     if len(samples) < 5 and len(got[1]) >= 3 and kw:
                         samples.append({"grammar": rep["grammar"], "ignore_case": ic, "input": w, "tokens": got[1]})
         for w in inputs:
             a, b = streams.get(("inline", w)), streams.get(("twin", w))
-            if a is not None and b is not None and a != b and \
-                    ((i, "inline", w) in deviating or (i, "twin", w) in deviating):
-                kf(KF_KWRAW if any(kw_defect(1, v) == KF_KWRAW for v in kwls[("tokast", i)]) else KF_KWBOUND,
-                   "inline and declared forms tokenize %r differently (a deviating keyword recognizer is tried in a "
-                   "different order)" % w)
-            elif a is not None and b is not None and a != b:
+            if a is not None and b is not None and a != b:
                 ctx.violation("inline and declared forms tokenize %r differently: %r vs %r" % (w, a, b),
                               dict(rep, input=w), key="twin-tokens")
         rm = byid.get(("m", i))
         if rm is not None:
             f = rm["forms"]["inline"]
-            if is_kwc(f.get("err")):
-                pass
-            elif "err" in f or "parser_err" in f:
+            if "err" in f or "parser_err" in f:
                 ctx.violation("declared-form grammar with priorities fails to build: %r"
                               % (f.get("err") or f.get("parser_err")), {"grammar": jobs_text(jobs, ("m", i))},
                               no_input=True, key="meta-build")
